@@ -85,7 +85,7 @@ fn run_for(prop: &str, names: &[&str], ctx: &Ctx, r: &mut Report) {
 		let stratified: [u64; 24] = [1, 2, 3, 4, 5, 6, 7, 8, 9, 10, 14, 20, 26, 33, 50, 64, 100, 127, 128, 200, 250, 252, 253, 254];
 		for len in lens {
 			let all_classes = ctx.thorough || stratified.contains(&len);
-			let ncl = if all_classes { 10 } else { 2 };
+			let ncl = if all_classes { 10 } else if prop == "C03" { 5 } else { 2 };
 			for j in 0..ncl {
 				k += 1;
 				if !ctx.mine(k) {
@@ -139,7 +139,7 @@ fn calibrate(r: &mut Report) {
 fn heikin(ctx: &Ctx, r: &mut Report) {
 	use crate::ap::{Ap, EPS};
 	let m = reg::method("HeikinAshi");
-	for k in 0..ctx.pick(20u64, 200) {
+	for k in 0..ctx.pick(80u64, 400) {
 		if !ctx.mine(k) {
 			continue;
 		}
